@@ -254,6 +254,11 @@ class BodyMixin:
 
     @cache_in('environ[ ombott.request.body ]', read_only=True)
     def _body(self):
+        failed = self.environ.get('ombott.request.body.error')
+        if failed is not None:
+            # the first attempt left the input stream in the middle of the message:
+            # a second one must fail the same way, not go on reading from there
+            self._raise(failed, RequestError)
         markup = None
         mp = MULTIPART_BOUNDARY_PATT.match(self.environ.get('CONTENT_TYPE', ''))
         if mp is not None:
@@ -272,6 +277,7 @@ class BodyMixin:
             )
             body.ombott_markup = markup
         except RequestError as err:
+            self.environ['ombott.request.body.error'] = err
             self._raise(err, RequestError)
         self.environ['wsgi.input'] = body
         body.seek(0)
